@@ -108,6 +108,40 @@ def run(ctx):
     # -------- (1) functionals of polynomials: cells, subsets, facets
     n1 = ctx.scale(200, 1500)
     dxreqs, dxpost = [], []
+    # -------- (1w) right prisms (triangle x interval: affine cells): monomials whose degree EQUALS the integration
+    # order, in particular in the extrusion direction alone (the generic loop below gives prisms `dim` orders of slack)
+    from fractions import Fraction as _Fr
+    P_ = exact.P
+    for rep in range(ctx.scale(2, 6)):
+        mw, infow = meshes.gen_first_order(rng, "wedge")
+        if mw.nelements > 24:
+            continue
+        ew = mw.elem()
+        for n in range(1, 9):
+            exps = [(0, 0, n), (n, 0, 0), (0, n, 0), (1, 0, n - 1), (0, 1, n - 1)]
+            for _ in range(3):
+                a = rng.randint(0, n)
+                b = rng.randint(0, n - a)
+                exps.append((a, b, n - a - b))
+            try:
+                bw = Basis(mw, ew, intorder=n)
+            except Exception as ex_:
+                ctx.count("wedge-order-refused:%d" % n)
+                continue
+            for ex3 in sorted(set(exps)):
+                pw = P_(3, {ex3: _Fr(1)})
+                fw = exact.poly_callable(pw)
+                val = Functional(lambda w: fw(w.x)).assemble(bw)
+                exv = exact.mesh_integral(mw, pw)
+                ctx.case({"t": mw.t.tolist(), "p": mw.p.tolist(), "poly": repr(pw), "kind": "functional-wedge-top-degree",
+                          "order": n}, nontrivial=True)
+                ctx.count("wedge-top-degree-monomials")
+                if abs(val - float(exv)) > 1e-11 * max(1.0, abs(float(exv))):
+                    ctx.violation("functional of a monomial of degree equal to the integration order differs from its "
+                                  "exact integral over a mesh of right prisms",
+                                  {"mesh": meshes.mesh_descr(mw), "info": infow, "poly": repr(pw), "order": n,
+                                   "got": float(val), "exact": qstr(exv)},
+                                  {"what": "functional-cells", "cls": "wedge"})
     for it in range(n1):
         if ctx.time_left(0.45) < 0:
             break
